@@ -12,7 +12,7 @@ import (
 func init() {
 	props["C07"] = func(r *Report) {
 		c07(r)
-		r.Guard("C07.R6", "every lock taken is released on every exit: connsMu and the other core locks (a lock left held makes Close or Serve block for ever)", func() { lockPairRule(r, ""); goCaptureRule(r, ""); goBlockRule(r, "") })
+		r.Guard("C07.R6", "every lock taken is released on every exit: connsMu and the other core locks (a lock left held makes Close or Serve block for ever)", func() { lockPairRule(r, ""); goCaptureRule(r, ""); goBlockRule(r, "", "h2") })
 	}
 	floors["C07"] = map[string]int{"C07.R1": 6, "C07.R2": 4, "C07.R3": 4, "C07.R4": 2, "C07.R5": 4, "C07.R6": 1}
 }
